@@ -228,13 +228,21 @@ func c05Eval(r *hist.Runner, sc *hist.Scenario, h []hist.Event, res *Result) ([]
 						res.Sample(map[string]any{"scenario": sc.Name, "faulted_history": hist.HistString(fh), "storage_calls_of_faulted_request": cs})
 					}
 				}
+				dup := len(viol) > 0 && c05LogHasDuplicate(x)
 				x.Close()
 				for _, v := range viol {
 					v.Detail = fmt.Sprintf("fault %d/%s (%s) retry=%v in %s\n%s", p.k, p.mode, callName(cs, p.k, p.mode), retry, hist.HistString(fh), v.Detail)
 					// the violating case is the faulted history itself
 					cls := callClass(cs, p.k, p.mode)
-					all = append(all, hist.Violation{Kind: v.Kind, Sig: v.Sig + "@" + cls, Detail: v.Detail + "\nFH=" + encodeHist(fh),
-						Core: v.Kind + "|" + v.Sig + "@" + cls})
+					core := v.Kind + "|" + v.Sig + "@" + cls
+					if dup && strings.HasPrefix(cls, "window:") {
+						// One defect, many symptoms (duplicate rows, a counter counted twice,
+						// divergence, "child not found" / "node should be found" when the
+						// second copy of a delete is applied): identified by the fault window
+						// plus the fact that the log holds a change twice.
+						core = "retry-stores-changes-twice@" + cls
+					}
+					all = append(all, hist.Violation{Kind: v.Kind, Sig: v.Sig + "@" + cls, Detail: v.Detail + "\nFH=" + encodeHist(fh), Core: core})
 				}
 			}
 		}
@@ -246,6 +254,28 @@ func c05Eval(r *hist.Runner, sc *hist.Scenario, h []hist.Event, res *Result) ([]
 		}
 	}
 	return all, false
+}
+
+// c05LogHasDuplicate reports the fact the known finding is identified by: some
+// (actor, clientSeq) is stored under two serverSeqs.
+func c05LogHasDuplicate(x *hist.Exec) bool {
+	di, err := x.DocInfo()
+	if err != nil {
+		return false
+	}
+	infos, err := x.R.W.BE.DB.FindChangeInfosBetweenServerSeqs(context.Background(), di.RefKey(), 1, math.MaxInt64)
+	if err != nil {
+		return false
+	}
+	seen := map[string]bool{}
+	for _, ci := range infos {
+		k := fmt.Sprintf("%s/%d", ci.ActorID.String(), ci.ClientSeq)
+		if seen[k] {
+			return true
+		}
+		seen[k] = true
+	}
+	return false
 }
 
 // callClass names the fault point. All points between "the pushed changes are
